@@ -21,10 +21,10 @@ CHECKS = {
          "Full: each covering algorithm's model is proved to return a valid cover wasting less than one bin, for all inputs; strict correspondence with the code.", TB),
  "C06": ("proof", "Lean 4 theorems (consistency of every algorithm's result, outputs_from_partition, *_sums_values, snp/rnpF_sums_manager_independent, ckkF_sums_manager_independent; refutation ckk_sums_manager_dependent of the code before fix F11) + model-side output projection + correspondence across all output types",
          "Reported sums = totals of the reported bins is part of every validity theorem; every output type is a proved function of the bins (the model projects it); the sums-only manager's run returns the same sum vector as the contents manager's run for every algorithm (for complete Karmarkar-Karp this was false on the pinned tree - found by the proof attempt, repaired by fix F11, proved for the repaired code). Every case is run once per output type of prtpy.out and the statement itself is evaluated on the implementation.", TB),
- "C07": ("proof", "Lean 4 naturality theorems (alg (map f) = mapItems f . alg) for 15 algorithms, injective-renaming naturality and list-vs-named equality of the sum vector (ckkF_list_dict_sums, snp_list_dict_sums, rnpF_list_dict_sums) for CKK/SNP/RNP + validity theorems generic in the value function + correspondence across the five input formats",
-         "Full for the fold-shaped algorithms, KK, CG, CBLDM, DP (any renaming, so repeated values in list input are covered); for CKK and SNP full as well (equivariance under injective renamings + equality of the whole sum vector with the run on the bare values; for CKK after fix F11, the statement was false before); for RNP (k <= 5) by RNPDict.rnpF_list_dict_sums; each case is presented as list, numpy array, dict (string and integer names) and names+valueof and compared strictly with the model; known finding KF4 (bin_completion computes on names).", TB),
- "C08": ("proof", "Lean 4 theorems greedy_four_thirds (Graham), kk_four_thirds, greedy/kk/roundrobin_gap, roundrobin_monotone/cards, multifit_ratio_four_thirds, greedy_maxmin_partial_* + verified DP oracle for the remaining sharp ratios",
-         "Gap bounds and round-robin structure full; 4/3 - 1/(3k) proved in full for LPT and for Karmarkar-Karp; PARTIAL: LPT's max-min ratio proved as 2k/(3k-1) for every k and exactly, (3k-1)/(4k-2), for k <= 4 and for every k when no item is below OPT/8, multifit proved <= (5/4 + 2^-it) OPT instead of 1.22 + 2^-it; the sharp constants are searched for counter-examples with the verified oracle on every run.", TB),
+ "C07": ("proof", "Lean 4 naturality theorems (alg (map f) = mapItems f . alg) for 15 algorithms, injective-renaming naturality and list-vs-named equality of the sum vector (ckkF_list_dict_sums, snp_list_dict_sums, rnpF_list_dict_sums) for CKK/SNP/RNP + validity theorems generic in the value function + correspondence across the six input formats and numpy arrays of narrow / unsigned integer types",
+         "Full for the fold-shaped algorithms, KK, CG, CBLDM, DP (any renaming, so repeated values in list input are covered); for CKK and SNP full as well (equivariance under injective renamings + equality of the whole sum vector with the run on the bare values; for CKK after fix F11, the statement was false before); for RNP (k <= 5) by RNPDict.rnpF_list_dict_sums; each case is presented as list, numpy array, dict (string and integer names) and names+valueof and compared strictly with the model; numpy arrays of 8- / 16- / 32- / 64-bit signed and unsigned integers give the sums of the plain list (after fix F13: arrays are normalised at the adaptor; before it multifit, dp, cg, snp, rnp, bin_completion wrapped around and ilp failed); known finding KF4 (bin_completion computes on names).", TB),
+ "C08": ("proof", "Lean 4 theorems greedy_four_thirds (Graham), kk_four_thirds, greedy/kk/roundrobin_gap, roundrobin_monotone/cards, multifit_ratio_five_fourths, MaxMin5.greedy_maxmin (LPT's exact max-min ratio (3k-1)/(4k-2) for every k) + verified DP oracle for the remaining sharp ratio",
+         "Gap bounds and round-robin structure full; 4/3 - 1/(3k) proved in full for LPT and for Karmarkar-Karp; LPT's exact max-min ratio (3k-1)/(4k-2) (Csirik-Kellerer-Woeginger) proved in full for every k (MaxMin5.greedy_maxmin); PARTIAL only for multifit: proved <= (5/4 + 2^-it) OPT instead of 1.22 + 2^-it; that constant is searched for counter-examples with the verified oracle on every run.", TB),
  "C09": ("proof", "Lean 4 theorems ff/bf(±decreasing)_anyfit, ff/bf_seventeen_tenths_strong (<= 1.7 OPT + 1), ffd/bfd_three_halves, ffd/bfd_partial_four_thirds + verified optBins oracle",
          "Any-fit invariant proved in full for all four heuristics in every arrival order; PARTIAL bounds: FF, BF <= floor(1.7 OPT) + 1 (weighting-function proof), FFD, BFD <= 3/2 OPT (absolute) and <= 5/4 OPT + 1, 11/9 OPT + 6/9 outside one range of the size of the last bin's first item; the absolute 1.7 and the 11/9 bounds are searched with the verified oracle.", TB),
  "C10": ("proof", "Lean 4 theorems cover_le_opt, coverDecreasing_half, twoThirds_two_thirds, threeQuarters_three_quarters + verified optCover oracle",
@@ -45,7 +45,7 @@ CHECKS = {
          "The heap model is compared with the real managers on every array (live or handed over) after every operation of bounded-exhaustive and random sequences.", TB),
  "C17": ("proof", "Lean 4 theorems about the ILP formulation (rows_iff_feasible, objective_is_documented, decode_copies, result_order, unit_weights_wlog, solver_answer_spec) + capture of the model handed to the solver + certification against the brute-force optimum",
          "The formulation handed to the MIP solver is modelled as data and proved to say exactly what the property states (copies, ascending weighted sums, caller constraints, documented objective); the read-back is proved to place each item copies[i] times "
-         "in the right bins and order. On every run the constraint system actually given to CBC is captured (wrapping mip.Model.optimize) and compared row by row with the Lean formulation, and CBC's answer is certified against the Lean brute-force optimum. The solver itself is trusted.", TB),
+         "in the right bins and order. On every run the constraint system actually given to CBC is captured (wrapping mip.Model.optimize) and compared row by row with the Lean formulation, and CBC's answer is certified against the Lean brute-force optimum, with no allowance for solver faults: a wrong answer with status OPTIMAL is a violation (fix F14 switched CBC's preprocessing off, which produced such answers on 1-2 % of the calls with copies other than 1; the solver's parameters are part of the captured formulation). The solver itself is trusted.", TB),
  "C18": ("proof", "Lean 4 theorems *_perm_sums, *_scale, isOptimal_perm/scale/zeros, cg/dp/cbldm_value_perm/scale/zeros, cg_value_config_independent + optimality theorems + metamorphic evaluation + agreement of exact solvers",
          "Full: permutation invariance and scaling proved for every heuristic (multifit in exact rationals); the specification optimum is invariant under permutation and zero items and linear under scaling, hence so is every algorithm with an optimality theorem (DP, complete greedy, CKK, SNP, RNP, CBLDM); ILP by certification. Exact solvers are compared with each other on 11-16 items.", TB),
  "C19": ("proof", "Lean 4 theorems ff/bf(±decreasing)_error_iff, bc_error_iff, decision-table model of cbldm's validation + correspondence on the malformed stream",
